@@ -23,7 +23,9 @@
   * `clear_input_and_circuit(new_m)`: components, heralds, ports, post-selection and input state are dropped, the
     number of modes becomes 0 (then `new_m` if given: the `m` setter refuses anything but an int ≥ 1 with
     `ValueError`, AFTER the reset); noise, photon filter and `_parameters` STAY.  On a processor of 0 modes the first
-    `add` / `set_circuit` decides the size (`component.m + offset`, `max(keys) + 1`, `circuit.m`).
+    `add` / `set_circuit` decides the size (`component.m + offset`, `max(keys) + 1`, `circuit.m`) — the model tests
+    `circuit_size == 0`, which is what `m == 0` means on every processor it reaches (`add_herald` keeps one mode of
+    interest), so it describes `add` whether the code tests `self.m` or `self.circuit_size`.
   * `set_parameters(d)`: `set_parameter` key by key; a key that is not a string raises `TypeError` after the earlier
     keys were written.  `thresholded_output(v)`: `v is False` on a platform whose spec says `detector: threshold`
     asserts; else `_parameters['thresholded'] = v`.
@@ -76,7 +78,7 @@ def portNames (size : Nat) (ports : List NPort) : List String :=
 def resolvePortLeft (names : List String) (name : String) : Option (List Int) :=
   let count := names.count name
   if count = 0 then none
-  else some ((List.range count).map fun i => ((names.idxOf name + i : Nat) : Int))
+  else some ((List.range count).map fun (i : Nat) => ((names.idxOf name + i : Nat) : Int))
 
 inductive MKey where
   | mode (k : Int)
@@ -95,33 +97,39 @@ inductive Mapping where
   | dict (items : List (MKey × MVal))
 deriving DecidableEq, Repr
 
-/-- the loop of `resolve` over a dictionary (after `_mapping_type_checks`) -/
+/-- the processor modes a dictionary key stands for: `[k]`, or the modes of the output port of that name -/
+def leftModes (names : List String) : MKey → Option (List Int)
+  | .mode k => some [k]
+  | .port n => resolvePortLeft names n
+
+/-- the component inputs a dictionary value stands for, next to `llen` processor modes: an int only next to ONE
+mode (otherwise the code takes it for a port name of the right object: `AssertionError` for a component) -/
+def rightModes (llen : Nat) : MVal → Option (List Int)
+  | .mode x => if llen = 1 then some [x] else none
+  | .modes vs => some vs
+  | .str => none
+
+/-- the loop of `resolve` over a dictionary (after `_mapping_type_checks`): `result[l_idx[i]] = r_idx[i]` -/
 def resolveDict (names : List String) : List (MKey × MVal) → IMap → Res IMap
-  | [], acc => pure acc
-  | (.mode k, .mode v) :: t, acc => resolveDict names t (iset acc k v)
+  | [], acc => .ok acc
   | (key, v) :: t, acc =>
-    match (match key with
-           | .port n => resolvePortLeft names n
-           | .mode k => some [k]) with
-    | none => throw .invalidMapping                 -- port not found
+    match leftModes names key with
+    | none => .error .invalidMapping                 -- port not found
     | some l =>
-      match (match v with
-             | .mode x => if l.length = 1 then some [x] else none
-             | .modes vs => some vs
-             | .str => none) with
-      | none => throw .assertion                    -- `_resolve_port_right` on a component
+      match rightModes l.length v with
+      | none => .error .assertion                    -- `_resolve_port_right` on a component
       | some r =>
-        if l.length ≠ r.length then throw .invalidMapping
-        else resolveDict names t (zipSet acc l r)
+        if l.length = r.length then resolveDict names t (zipSet acc l r)
+        else .error .invalidMapping                  -- imbalanced
 
 /-- `ModeConnector.resolve()` for a component of `n` modes, before `_check_consistency` -/
 def resolveRaw (names : List String) (n : Nat) : Mapping → Res IMap
-  | .offset k => pure ((List.range n).map fun i => (k + (i : Int), (i : Int)))
+  | .offset k => .ok ((List.range n).map fun (i : Nat) => (k + (i : Int), (i : Int)))
   | .list keys =>
-    if keys.length ≠ n then throw .invalidMapping
-    else pure (zipSet [] keys ((List.range n).map fun i => (i : Int)))
+    if keys.length = n then .ok (zipSet [] keys ((List.range n).map fun (i : Nat) => (i : Int)))
+    else .error .invalidMapping
   | .dict items =>
-    if items.any (fun kv => kv.2 == .str) then throw .assertion     -- `_mapping_type_checks`
+    if items.any (fun kv => kv.2 == .str) = true then .error .assertion     -- `_mapping_type_checks`
     else resolveDict names items []
 
 /-- `Experiment.is_mode_connectible(mode)` -/
@@ -130,10 +138,11 @@ def connectible (e : Exp) (k : Int) : Bool :=
 
 /-- `_check_consistency()` -/
 def checkConsistency (e : Exp) (n : Nat) (m : IMap) : Option Err :=
-  if m.length ≠ n then some .invalidMapping
-  else if m.any (fun kv => !connectible e kv.1) then some .unavailable
-  else if ¬ (m.map (·.2)).Nodup then some .invalidMapping
-  else none
+  if m.length = n then
+    if m.all (fun kv => connectible e kv.1) = true then
+      if (m.map (·.2)).Nodup then none else some .invalidMapping
+    else some .unavailable
+  else some .invalidMapping
 
 /-- `PostSelect.can_compose_with(modes)`: every condition contains all the modes or none of them -/
 def canCompose (conds : List (List Nat)) (keys : List Nat) : Bool :=
@@ -225,103 +234,131 @@ def mappedComps (nm : NMap) (c : UC) : List Comp :=
   let σ := permVect nm
   (if isIdentity σ then [] else [.perm mn σ]) ++ [.sub mn c]
 
+/-- `_validate_postselect_composition`: some condition of the post-selection has some of the keys but not all -/
+def psBlocks (aw : AWorld) (keys : List Nat) : Bool :=
+  match aw.psc with
+  | some conds => !canCompose conds keys
+  | none => false
+
+def toNMap (m : IMap) : NMap := m.map fun kv => (kv.1.toNat, kv.2.toNat)
+
 /-- `add(mapping, circuit)` on the processor `e`: the resolved mapping (keys in dictionary order), or the exception -/
 def resolveAdd (aw : AWorld) (e : Exp) (mp : Mapping) (c : UC) : Res NMap :=
   match resolveRaw (portNames e.size aw.ports) c.m mp with
-  | .error err => throw err
+  | .error err => .error err
   | .ok m =>
     match checkConsistency e c.m m with
-    | some err => throw err
+    | some err => .error err
     | none =>
-      let nm : NMap := m.map fun kv => (kv.1.toNat, kv.2.toNat)
-      let blocked : Bool := match aw.psc with
-        | some conds => !canCompose conds (nm.map (·.1))
-        | none => false
-      if blocked then throw Err.assertion
-      else if m.any (fun kv => decide (kv.2 < 0)) then throw Err.assertion      -- `PERM`: not a permutation
-      else if ¬ IsPermList (spanLen nm) (permVect nm) then throw Err.assertion
-      else pure nm
+      if psBlocks aw ((toNMap m).map (·.1)) = true then .error .assertion
+      else if m.any (fun kv => decide (kv.2 < 0)) = true then .error .assertion      -- `PERM`: not a permutation
+      else if IsPermList (spanLen (toNMap m)) (permVect (toNMap m)) then .ok (toNMap m)
+      else .error .assertion
 
 def usesPortName : Mapping → Bool
   | .dict items => items.any fun kv => match kv.1 with | .port _ => true | .mode _ => false
   | _ => false
 
+/-- the call goes to the machine with components as it is -/
+def pass (aw : AWorld) (op : COp) : AWorld × Out :=
+  let r := cstep aw.cw op
+  ({ aw with cw := r.1 }, r.2)
+
+/-- the processor has 0 modes (after `clear_input_and_circuit()`) -/
+def emptyProc (aw : AWorld) : Bool :=
+  match aw.cw.w.exp with
+  | some e => e.size == 0
+  | none => false
+
+/-- calls that do not look at the circuit: modelled on a processor of 0 modes too -/
+def Op.okOnEmpty : Op → Bool
+  | .setFilter _ => true
+  | .setNoise _ => true
+  | .setParam _ _ => true
+  | .clearParams => true
+  | .execute _ _ _ _ => true
+  | _ => false
+
+/-- `prepare_job_payload` on a processor of 0 modes: nothing to send — `Circuit(0)` asserts, after the filter check
+and the parameter synchronisation -/
+def prepareEmpty (aw : AWorld) (circuitless : Bool) (kw : Dict V) : AWorld × Out :=
+  match aw.cw.w.exp with
+  | none => (aw, .err .precondition)
+  | some e =>
+    if circuitless then (aw, .err .precondition)
+    else if (dget kw "command").isSome then (aw, .err .type)
+    else if e.filter.isNone then (aw, .err .value)
+    else (setExp aw (syncFilterParam e), .err .assertion)
+
+/-- a call of the session machine -/
+def astepPlain (aw : AWorld) (op : Op) : AWorld × Out :=
+  match op with
+  | .setPost _ => (aw, .err .precondition)                   -- use `.post` / `.clearPost`
+  | .addHerald mode ex =>
+    if ex ≤ 1 ∧ underPort aw.ports mode = true then (aw, .err .unavailable)       -- "Another port overlaps"
+    else pass aw (.plain op)
+  | .prepare _ cl _ kw =>
+    if emptyProc aw = true then prepareEmpty aw cl kw else pass aw (.plain op)
+  | op =>
+    if emptyProc aw = true ∧ op.okOnEmpty = false then (aw, .err .precondition)
+    else pass aw (.plain op)
+
+/-- a constructor: the new processor has no named port and no post-selection -/
+def freshOn (aw : AWorld) (r : AWorld × Out) (known : Bool) (psc : Option (List (List Nat))) : AWorld × Out :=
+  if r.2 = .done then ({ r.1 with ports := [], portsKnown := known, psc := psc }, r.2) else r
+
+def astepBase (aw : AWorld) : COp → AWorld × Out
+  | .newRemote via c noise => freshOn aw (pass aw (.newRemote via c noise)) true none
+  | .convert p pc =>
+    if p.post.isSome ∨ p.size = 0 then (aw, .err .precondition)           -- use `.convertPS`
+    else freshOn aw (pass aw (.convert p pc)) false none
+  | .add _ _ => (aw, .err .precondition)                     -- use `.addMapped (.offset k)`
+  | .setCircuit checked c =>
+    match aw.cw.w.exp with
+    | some e =>
+      if e.size = 0 then
+        -- `if self._n_moi == 0: self.m = circuit.m` (after `check_circuit`: a refusal leaves 0 modes)
+        let r := pass (setExp aw (sized e c.m)) (.setCircuit checked c)
+        if r.2 = .done then r else (aw, r.2)
+      else pass aw (.setCircuit checked c)
+    | none => pass aw (.setCircuit checked c)
+  | .plain op => astepPlain aw op
+
 def astep (aw : AWorld) : AOp → AWorld × Out
-  | .base op =>
-    match op with
-    | .plain (.setPost _) => (aw, .err .precondition)          -- use `.post` / `.clearPost`
-    | .add _ _ => (aw, .err .precondition)                     -- use `.addMapped (.offset k)`
-    | .plain (.addHerald mode ex) =>
-      if ex ≤ 1 ∧ underPort aw.ports mode then (aw, .err .unavailable)       -- "Another port overlaps"
-      else let r := cstep aw.cw op; ({ aw with cw := r.1 }, r.2)
-    | .convert p _ =>
-      if p.post.isSome ∨ p.size = 0 then (aw, .err .precondition)           -- use `.convertPS`
-      else
-        let r := cstep aw.cw op
-        if r.2 = .done then ({ aw with cw := r.1, ports := [], portsKnown := false, psc := none }, r.2)
-        else ({ aw with cw := r.1 }, r.2)
-    | .newRemote _ _ _ =>
-      let r := cstep aw.cw op
-      if r.2 = .done then ({ aw with cw := r.1, ports := [], portsKnown := true, psc := none }, r.2)
-      else ({ aw with cw := r.1 }, r.2)
-    | _ =>
-      match aw.cw.w.exp with
-      | some e =>
-        -- a processor of 0 modes (after `clear_input_and_circuit()`): only `set_circuit` is modelled here
-        if e.size = 0 then
-          match op with
-          | .setCircuit _ c =>
-            let r := cstep (setExp aw (sized e c.m)).cw op
-            if r.2 = .done then ({ aw with cw := r.1 }, r.2) else (aw, r.2)
-          | .plain (.setFilter _) | .plain (.setNoise _) | .plain (.setParam _ _) | .plain .clearParams
-          | .plain (.execute _ _ _ _) =>
-            let r := cstep aw.cw op; ({ aw with cw := r.1 }, r.2)
-          | .plain (.prepare _ false _ kw) =>
-            -- nothing to send: `Circuit(0)` asserts, after the filter check and the parameter synchronisation
-            if (dget kw "command").isSome then (aw, .err .type)
-            else if e.filter.isNone then (aw, .err .value)
-            else (setExp aw (syncFilterParam e), .err .assertion)
-          | _ => (aw, .err .precondition)
-        else let r := cstep aw.cw op; ({ aw with cw := r.1 }, r.2)
-      | none => let r := cstep aw.cw op; ({ aw with cw := r.1 }, r.2)
+  | .base op => astepBase aw op
   | .convertPS p pc conds =>
     if p.post.isNone ∨ p.size = 0 then (aw, .err .precondition)
     else
-      let r := cstep aw.cw (.convert p pc)
-      if r.2 = .done then
-        -- conditions are renumbered with the conversion's relabelling: local mode `x` is the new mode `σ.idxOf x`
-        ({ aw with cw := r.1, ports := [], portsKnown := false,
-                   psc := some (conds.map fun c => c.map fun x => (relabelOf p).idxOf x) }, r.2)
-      else ({ aw with cw := r.1 }, r.2)
+      -- conditions are renumbered with the conversion's relabelling: local mode `x` is the new mode `σ.idxOf x`
+      freshOn aw (pass aw (.convert p pc)) false (some (conds.map fun c => c.map fun x => (relabelOf p).idxOf x))
   | .post id conds =>
-    let r := cstep aw.cw (.plain (.setPost (some id)))
-    if r.2 = .done then ({ aw with cw := r.1, psc := some conds }, r.2) else ({ aw with cw := r.1 }, r.2)
+    let r := pass aw (.plain (.setPost (some id)))
+    if r.2 = .done then ({ r.1 with psc := some conds }, r.2) else r
   | .clearPost =>
-    let r := cstep aw.cw (.plain (.setPost none))
-    if r.2 = .done then ({ aw with cw := r.1, psc := none }, r.2) else ({ aw with cw := r.1 }, r.2)
+    let r := pass aw (.plain (.setPost none))
+    if r.2 = .done then ({ r.1 with psc := none }, r.2) else r
   | .addPort mode name size =>
     match aw.cw.w.exp with
     | none => (aw, .err .precondition)
     | some e =>
-      if size = 0 ∨ e.size < mode + size ∨ !aw.portsKnown then (aw, .err .precondition)
-      else if (List.range size).any (fun i => underPort aw.ports (mode + i) || (heraldModes e).contains (mode + i)) then
+      if size = 0 ∨ e.size < mode + size ∨ aw.portsKnown = false then (aw, .err .precondition)
+      else if (List.range size).any (fun i => underPort aw.ports (mode + i) || (heraldModes e).contains (mode + i)) = true then
         (aw, .err .unavailable)
       else ({ aw with ports := aw.ports ++ [⟨name, mode, size⟩] }, .done)
   | .addMapped mp c =>
     match aw.cw.w.exp with
     | none => (aw, .err .precondition)
     | some e0 =>
-      if ¬ c.WF ∨ c.m = 0 ∨ (usesPortName mp ∧ !aw.portsKnown) then (aw, .err .precondition)
+      if ¬ c.WF ∨ c.m = 0 ∨ (usesPortName mp = true ∧ aw.portsKnown = false) then (aw, .err .precondition)
       else
         -- `if self.m == 0: self.m = …` (kept even when the call then raises)
         match (if e0.size = 0 then (firstSize mp c.m).map (sized e0) else some e0) with
         | none => (aw, .err .precondition)
         | some e =>
-          let aw₁ := setExp aw e
           match resolveAdd aw e mp c with
-          | .error err => (aw₁, .err err)
+          | .error err => (setExp aw e, .err err)
           | .ok nm =>
-            (setComps (setExp aw₁ (addComponent e c.sym c.cparams)) (aw.cw.comps ++ mappedComps nm c), .done)
+            (setComps (setExp aw (addComponent e c.sym c.cparams)) (aw.cw.comps ++ mappedComps nm c), .done)
   | .setParams d =>
     match aw.cw.w.exp with
     | none => (aw, .err .precondition)
@@ -333,7 +370,7 @@ def astep (aw : AWorld) : AOp → AWorld × Out
     match aw.cw.w.exp with
     | none => (aw, .err .precondition)
     | some e =>
-      if v = false ∧ aw.thrOnly then (aw, .err .assertion)
+      if v = false ∧ aw.thrOnly = true then (aw, .err .assertion)
       else (setExp aw (setParam e "thresholded" (.bool v)), .done)
   | .clearAll newM sym =>
     match aw.cw.w.exp with
@@ -433,21 +470,16 @@ namespace PM.C16
 def AOp.delegate (aw : AWorld) : AOp → Option COp
   | .base op =>
     match op with
-    | .plain (.setPost _) => none
-    | .add _ _ => none
-    | .plain (.addHerald mode ex) => if ex ≤ 1 ∧ underPort aw.ports mode then none else some op
-    | .convert p _ => if p.post.isSome ∨ p.size = 0 then none else some op
     | .newRemote _ _ _ => some op
-    | _ =>
-      match aw.cw.w.exp with
-      | some e =>
-        if e.size = 0 then
-          match op with
-          | .plain (.setFilter _) | .plain (.setNoise _) | .plain (.setParam _ _) | .plain .clearParams
-          | .plain (.execute _ _ _ _) => some op
-          | _ => none
-        else some op
-      | none => some op
+    | .convert p _ => if p.post.isSome ∨ p.size = 0 then none else some op
+    | .add _ _ => none
+    | .setCircuit _ _ => if emptyProc aw = true then none else some op
+    | .plain o =>
+      match o with
+      | .setPost _ => none
+      | .addHerald mode ex => if ex ≤ 1 ∧ underPort aw.ports mode = true then none else some op
+      | .prepare _ _ _ _ => if emptyProc aw = true then none else some op
+      | o => if emptyProc aw = true ∧ o.okOnEmpty = false then none else some op
   | .convertPS p pc _ => if p.post.isNone ∨ p.size = 0 then none else some (.convert p pc)
   | .post id _ => some (.plain (.setPost (some id)))
   | .clearPost => some (.plain (.setPost none))
